@@ -53,6 +53,7 @@ type verifTask struct {
 	returnedErrs   []string  // plain errors its handlers returned in the running process
 	spawn      int  // tasks its do handler adds to the change when it succeeds (as snapstate.InjectTasks)
 	dynamic    bool // was added by a handler at run time
+	careless   bool // adds its tasks even when an abort has overtaken it (as snapstate's link-snap does with auto-connect)
 
 	notBefore   time.Time // earliest legal start (scheduled tasks)
 	doApplied   int
@@ -332,6 +333,7 @@ func verifRunA(c *verifsim.Ctx) {
 			}
 			if cfg.spawn && vt.script == verifScriptOK && c.Chance("spawns", 1, 5) {
 				vt.spawn = 1 + c.Draw("nspawn", 2)
+				vt.careless = c.Chance("spawns-even-when-aborted", 1, 2)
 			}
 			if cfg.wait {
 				vt.waitBySet = c.Chance("wait-by-set", 1, 2)
@@ -844,17 +846,20 @@ func (w *verifWorldA) release(p *verifParked) {
 
 // spawnTasks is what a handler does that extends its change while it runs
 // (snapstate.InjectTasks): the new tasks join the lanes of the running task
-// and wait for it, and everything that waited for it also waits for them. A
-// careful handler does this once (it records that it did) and only while its
-// task is still Doing (not when an abort overtook it).
+// and wait for it, and everything that waited for it also waits for them. The
+// handler does this once (it records that it did); a careful one only while
+// its task is still Doing, a careless one also when an abort overtook it.
 func (w *verifWorldA) spawnTasks(vt *verifTask) {
 	c := w.c
 	w.st.Lock()
 	defer w.st.Unlock()
 	t := w.st.Task(vt.id)
-	if t == nil || t.Status() != state.DoingStatus {
+	if t == nil || (t.Status() != state.DoingStatus && !(vt.careless && t.Status() == state.AbortStatus)) {
 		c.Count("probe:spawn-skipped-task-not-doing")
 		return
+	}
+	if t.Status() == state.AbortStatus {
+		c.Count("probe:tasks-added-by-a-handler-an-abort-had-overtaken")
 	}
 	var done bool
 	if err := t.Get("verif-spawned", &done); err == nil && done {
